@@ -13,7 +13,8 @@ for d in seeded/*/; do
   git -C /repo apply $PWD/$d/patch.diff
   out=$(./pzv check $prop 2>&1)
   rules=$(echo "$out" | grep "rule=" | sed 's/.*rule=\([A-Z0-9-]*\).*/\1/' | sort -u | tr '\n' ' ')
-  if echo "$out" | grep -q "^VIOLATION"; then echo "$id $prop detected [$rules]"; else echo "$id $prop MISSED"; fi
+  ex=$(python3 -c "import json;print(json.load(open('$d/meta.json')).get('expected',''))" 2>/dev/null)
+  if echo "$out" | grep -q "^VIOLATION"; then echo "$id $prop detected [$rules]"; elif [ "$ex" = "missed" ]; then echo "$id $prop missed (recorded as outside reach)"; else echo "$id $prop MISSED"; fi
   git -C /repo checkout -- .
 done
 git -C /verif checkout -- evidence  # evidence written while a seeded change was applied must not be committed
